@@ -819,7 +819,7 @@ int expression_t::get_precedence(kind_t kind)
     case NOT: return 90;
 
     case FRACTION: return 14;
-    case INLINE_IF: return 15;
+    case INLINE_IF: return 10;  // the level of the assignments: "(b ? i : j) = k" needs its parentheses
 
     case ASSIGN:
     case ASS_PLUS:
@@ -1213,8 +1213,13 @@ std::ostream& expression_t::print(std::ostream& os, bool old) const
     case ASS_RSHIFT:
     case MIN:
     case MAX:
-    case FRACTION:
-        embrace_strict(os, old, get(0), precedence);
+    case FRACTION: {
+        // assignments associate to the right, all other binary operators to the left
+        const bool right_assoc = (ASSIGN <= data->kind && data->kind <= ASS_RSHIFT);
+        if (right_assoc)
+            embrace(os, old, get(0), precedence);
+        else
+            embrace_strict(os, old, get(0), precedence);
         switch (data->kind) {
         case FRACTION: os << " : "; break;
         case PLUS: os << " + "; break;
@@ -1251,8 +1256,12 @@ std::ostream& expression_t::print(std::ostream& os, bool old) const
         case MAX: os << " >? "; break;
         default: assert(0);
         }
-        embrace(os, old, get(1), precedence);
+        if (right_assoc)
+            embrace_strict(os, old, get(1), precedence);
+        else
+            embrace(os, old, get(1), precedence);
         break;
+    }
 
     case IDENTIFIER: os << data->symbol.get_name(); break;
 
